@@ -8,6 +8,9 @@
 -/
 import Hg.Proofs.FillLaws
 import Hg.Proofs.HistoryLaws
+import Hg.Proofs.CodecLaws
+import Hg.Proofs.InvImmut
+import Hg.Proofs.InvNp
 import Hg.Props.Examples
 
 namespace Hg.C05
@@ -47,6 +50,25 @@ theorem inv_history (z : Agg) (ops : List HOp)
     ∀ a ∈ runH z ops, inv a = true ∧ good a = true ∧ sameBase z a = true :=
   Hg.inv_history z ops hz hg ht hn hok hgf
 
+/-- **vectorised fill**: under the hypotheses of C03 `fillNp_eq_rows`, `fill.numpy` on a state that satisfies the
+invariants returns a state that satisfies them (the zero-weight bins a vectorised fill may create are copies of the
+template with zero entries: `Zrel_inv`) -/
+theorem inv_fillNp (t : Agg) (rows : List Datum) (ws : List Val)
+    (hlen : rows.length = ws.length) (hw : nonNegW ws = true)
+    (hrun : goodRun t (rows.zip ws) = true) (ht : hasTmpl t = true) (hs : noNanForSums t rows = true)
+    (hq : qtysOk t rows = true) (hi : inv t = true) :
+    ∃ a, fillNp t rows ws = some a ∧ inv a = true :=
+  Hg.inv_fillNp t rows ws hlen hw hrun ht hs hq hi
+
+/-- **JSON round trip**: the aggregator loaded from the document of a state that satisfies the invariants
+satisfies them too (and is well-formed); `inv_immut`: the invariants do not depend on whether the quantities are live -/
+theorem inv_reload (t : Agg) (hg : good t = true) (hu : uniform t = true) (hk : knownCtype t = true)
+    (hi : inv t = true) :
+    ∃ r, decode (encode t) = some r ∧ inv r = true ∧ good r = true :=
+  ⟨immut t, Hg.decode_encode t hg hu hk, by rw [Hg.inv_immut]; exact hi, (Hg.good_immut t hg hu).1⟩
+
+theorem inv_immut (t : Agg) : inv (immut t) = inv t := Hg.inv_immut t
+
 /-- routing of a Bin puts every non-NaN value in exactly one of under / over / a regular bin whose
 index is below `n` (the index is clamped to the last bin, mirroring the repaired code) -/
 theorem binIndex_lt (n : Nat) (low high x : Rat) (hn : 0 < n) : binIndex n low high x < n := by
@@ -58,5 +80,10 @@ open Hg.Ex in
 example : isZeroTree z = true := by decide +kernel
 open Hg.Ex in
 #guard goodRun z (s1 ++ s2) && inv (fillAll z (s1 ++ s2))
+open Hg.Ex in
+#guard (let rows := (s1 ++ s2).map (·.1); let ws := (s1 ++ s2).map (·.2);
+  nonNegW ws && goodRun z (rows.zip ws) && noNanForSums z rows && qtysOk z rows && (fillNp z rows ws).any inv)
+open Hg.Ex in
+#guard (let t := fillAll z (s1 ++ s2); good t && uniform t && knownCtype t && inv t && (decode (encode t)).any inv)
 
 end Hg.C05
